@@ -3,6 +3,7 @@
 from __future__ import annotations
 
 import ast
+from contextlib import suppress
 from typing import Any, Callable
 
 
@@ -33,7 +34,11 @@ def get_name(node: ast.AST) -> str:
 
 
 def _get_assign_names(node: ast.Assign) -> list[str]:
-    names = (get_name(target) for target in node.targets)
+    names = []
+    for target in node.targets:
+        # An unsupported target (subscript, tuple...) does not prevent the other targets from being bound.
+        with suppress(KeyError):
+            names.append(get_name(target))
     return [name for name in names if name]
 
 
